@@ -34,4 +34,37 @@ def d17Check : Bool :=
 
 theorem d17_check : d17Check = true := by decide +kernel
 
+/-! ### second witness: a client sleeps forever inside `ThreadPool::run` (so `Future::start` never returns and the
+    call it was starting is never executed).  Real-code run: seed 18711 of `q=1 | s0:11:5 s1:12:5 s2:13:5 | s3:21:6 s4:22:6 s5:23:6`. -/
+
+def d17bCfg : Config :=
+  { q := 1, minT := 0, maxT := 3, lazy := false, tick := 0, spurious := 0, repaired := false,
+    scripts := [[.start 0 11 5, .start 1 12 5, .start 2 13 5], [.start 3 21 6, .start 4 22 6, .start 5 23 6]] }
+
+def d17bSched : List Tid := [0,0,0,0,2,2,2,2,2,2,2,2,2,0,0,2,2,1,1,1,1,1,1,1,1,1,1,2,2,2,1,1,1,1,1,1,1,1,2,1,2,2,2,2,2,2,2,2,2,2,2,2,2,3,3,3,3,3,3,2,2,2,2,2,2,2,2,2,2,2,3,3,3,2,2,2,2,2,2,3,2,2,2,2,2,2,2,2,2,2,2,2,2,2,2,2,2,2,2,2,2,2,2,2,2,4,4,4,4,4,4,2,3,3,4,4,4,3,4,3,3,3,4,4,3,3,3,4,4,4,4,4,4,4,4,4,4,4,1,3,3,4,2,2,2,2,2,2,1,1,2,2,2,2,2,3,3,3,1,4,4,2,4,4,4,4,4,4,4,4,4,4,4,4,4,4,4,3,3,3,3,3,3,3,3,4,4,2,2,2,2,2,2,2,2,2,2,2,2,2,2,4,4,4,4,4,3,3,3,3,3,3,3,3,4,4,4,4,4,4,4,4,4,4,4,3,3,3,2,2,4,4,2,4,2,2,2,2,2,2,2,2,2,2,2,2,2,2,2,2,2,2,2,2,2,2,2,2,2,2,2,2,2,2,2,2,2,2]
+
+/-- `_dequeuedSignal`: `_state = 1` while the underlying Signal is reset, and the queue has a free slot -/
+def deqInconsistent (s : State) : Bool :=
+  match s.pool with
+  | some p => p.deq == 1 && !(s.sigs 1).signaled && p.ring.tail < p.ring.head + p.ring.cap
+  | none => false
+def isCwake (σ : Nat) : Frame → Bool
+  | .sWaitCwake x => x == σ
+  | _ => false
+
+/-- some client thread sleeps in `_dequeuedSignal.wait()` (inside `ThreadPool::run`) -/
+def clientAsleepOnDeq (s : State) : Bool :=
+  s.clientTids.any (fun t => match s.threads t with
+    | some th => (match th.stack.head? with | some fr => isCwake 1 fr | none => false) && (s.sigs 1).waiters.contains t
+    | none => false)
+/-- a started call that has not been executed -/
+def unexecutedCall (s : State) : Bool := (List.range s.nextCall).any (fun c => s.execCount c == 0)
+
+def d17bCheck : Bool :=
+  match runSched (State.init d17bCfg) d17bSched with
+  | some s => allBlocked s && clientAsleepOnDeq s && deqInconsistent s && unexecutedCall s
+  | none => false
+
+theorem d17b_check : d17bCheck = true := by decide +kernel
+
 end Nstd.Future
